@@ -216,6 +216,12 @@ def main():
     # the classic collision pairs
     for a, b in (('A B', 'A_B'), ("O'Neil", 'ONeil'), ('X"Y', 'XY'), ('A  B', 'A__B')):
         render_all(base_txns()[:2] + [T(a, 'Odd', 'Names', 10.0, 4, 1), T(b, 'Odd', 'Names', 20.0, 4, 2)], {'names': [a, b]})
+    # zero / negative totals in odd places: a merchant whose categories cancel out, only refunds, a category with a positive total while no merchant nets positive
+    render_all([T('Amazon', 'Subs', 'Prime', 14.99, 1, 5), T('Amazon', 'Shop', 'Ret', -89.0, 1, 9)], {'case': 'one_merchant_two_categories_net_negative'})
+    render_all([T('Amazon', 'Subs', 'Prime', 50.0, 1, 5), T('Amazon', 'Shop', 'Ret', -50.0, 1, 9)], {'case': 'one_merchant_two_categories_net_zero'})
+    render_all([T('Returns', 'Shop', 'Ret', -20.0, 3, 9), T('Returns2', 'Shop', 'Ret', -5.0, 3, 10)], {'case': 'only_refunds'})
+    render_all([T('Solo', 'Food', 'One', 10.0, 1, 5)], {'case': 'single_transaction'}, views=True)
+    render_all([T('Employer', 'Pay', 'Salary', -2000.0, 1, 31, ['income'])], {'case': 'only_income'})
     # collisions of three and more names, and a real merchant named like a suffixed id
     for group in (('A B', 'A_B', "'A_B'"), ("Joe's Cafe", 'Joes Cafe', 'Joes_Cafe_2'), ('Joes_Cafe_2', "Joe's Cafe", 'Joes Cafe'), ('X Y', 'X_Y', "X'_Y", 'X"_Y', 'X_Y_2', 'X_Y_3')):
         render_all(base_txns()[:2] + [T(n, 'Odd', 'Names', 10.0 * (j + 1), 4, 1 + j) for j, n in enumerate(group)], {'names': list(group)})
